@@ -73,6 +73,9 @@ WEIRD = {
     "w_dots": "a.b.c", "w_mix": 'k: "v" #c {x} [y] *z &w !t |p >q %r @s `u', "w_yes": "yes", "w_float": "1.5",
     "w_crlf": "a\r\nb", "w_nbsp": "\u00a0a", "w_ls": "a\u2028b", "w_del": "a\x7fb", "w_pipes": "a|b|c",
     "w_tpl": "{{.InterfaceDir}}",
+    "w_dollar": "a$b", "w_dollarbrace": "x/${HOME}/y", "w_dollarset": "example.com/$VERIF_C18_SET/v2",
+    "w_dollarunset": "p${VERIF_C18_UNSET}q", "w_dollardollar": "$$", "w_dollardigit": "cost$5/$1", "w_pctvar": "%PATH%/%VERIF_C18_SET%",
+    "w_tildepath": "~/go/src/x",
     "w_kall": "all", "w_kpackages": "packages", "w_kconfig": "config", "w_ktd": "template-data",
     "w_kinterfaces": "interfaces", "w_kConfig": "Config",
     "w_longsp": " ".join("word%d" % i for i in range(300)), "w_xlong": "/".join(["y" * 59] * 100),
@@ -82,7 +85,7 @@ WEIRD = {
 assert len(set(WEIRD.values())) == len(WEIRD)
 
 # seed-dependent extra strings (ids w_r<n>), drawn from the characters YAML gives a meaning to
-RND_ALPHABET = list(":#{}[]*&!|>'\"%@`,-?<=~ \t\n\r/.\\") + list("abzAZ019_") + \
+RND_ALPHABET = ["$", "$a", "${a}", "$1", "$$", "%a%", "~/"] + list(":#{}[]*&!|>'\"%@`,-?<=~ \t\n\r/.\\") + list("abzAZ019_") + \
     ["\u00e9", "\u2028", "\u2029", "\U0001F600", "\ufeff", "\u00a0", "\u0085", "\x01", "\x1b", "\x7f", "\u200b", ": ", " #", "- ", "? ",
      "null", "true", "~", "0x", "1e3", ".inf", ".nan", "!!str ", "<<", "---", "...", "%YAML"]
 
@@ -149,12 +152,44 @@ type G[T any] interface{ Get() T }
 type S struct{}
 
 type Fn func(int) int
+
+// no methods of their own: only embedded interfaces (local, imported, an instantiated generic one)
+type RW interface {
+	A
+	Z
+}
+
+type RC interface {
+	io.Reader
+	io.Closer
+}
+
+type GS interface{ G[string] }
+
+type E interface{}
+
+// left open by the statement: constraint interfaces, aliases, a defined type over a named interface
+type Num interface{ ~int | ~string }
+
+type Cmp interface{ comparable }
+
+type Mixed interface {
+	Num
+	M()
+}
+
+type Al = A
+
+type AlF = io.Writer
+
+type Named A
 """
 SUB_Z_GO = """package sub
 
 type Z interface{ Last() }
 """
-GO_IFACES = {"root": {"R", "rr"}, "sub": {"A", "b", "C", "G", "Z"}}
+GO_IFACES = {"root": {"R", "rr"}, "sub": {"A", "b", "C", "G", "Z", "RW", "RC", "GS", "E"}}
+GO_MAY = {"root": set(), "sub": {"Num", "Cmp", "Mixed", "Al", "AlF", "Named"}}
 
 
 def str_class(s_):
@@ -225,6 +260,12 @@ def cfg_layout(cfg, root):
             target, pre = root / "far" / "xa.yml", ["--config", str(root / "lnk") + "/../xa.yml"]
         else:
             target, pre = root / "far" / "inner" / "ld.yml", ["--config", "lnk/ld.yml"]
+    elif cfg.startswith("ext-"):
+        (root / "ci").mkdir(exist_ok=True)
+        name = {"ext-json": "mockery.json", "ext-JSON": "mockery.JSON", "ext-toml": "mockery.toml", "ext-txt": "mockery.txt",
+                "ext-none": "mockeryconf", "ext-jsonyml": "a.json.yml", "ext-dot": ".mockeryrc", "ext-absjson": "abs.json"}[cfg]
+        target = root / "ci" / name
+        pre = ["--config", str(target) if cfg == "ext-absjson" else "ci/" + name]
     elif cfg == "dslash":
         target, pre = root / "cfgs" / "conf.yml", ["--config", "cfgs//./conf.yml"]
     elif cfg == "after":
@@ -316,6 +357,8 @@ class Runner:
 
     def mockery(self, cwd, args, trace_file=None, timeout=120, env=None):
         e = go_env(env)
+        e["VERIF_C18_SET"] = "EXPANDED"       # a variable some package strings refer to ($VERIF_C18_SET); _UNSET is not set
+        e.pop("VERIF_C18_UNSET", None)
         if trace_file:
             e["VERIFHOOK_TRACE"] = str(trace_file)
         t = time.time()
@@ -476,7 +519,7 @@ def replay_case(ctx, run, idx, case):
     world = case["world"]
     root, cwd, target, pre, post = make_world(ctx, run, idx, case)
     mod = module_of(world)
-    gopkgs = [{"s": pkg_string(world, p), "ifaces": sorted(GO_IFACES[p])} for p in ("root", "sub")]
+    gopkgs = [{"s": pkg_string(world, p), "ifaces": sorted(GO_IFACES[p]), "may": sorted(GO_MAY[p])} for p in ("root", "sub")]
     events = [{"op": "reset", "case": idx, "snap": snapshot(target), "parent_ok": target.parent.is_dir(),
                "gopkgs": gopkgs, "anc": case.get("anc", "none")}]
     obs = []
@@ -629,9 +672,36 @@ def judge_case(ctx, idx, case, obs):
             if e["judged"]:
                 if ob["ok"] != e["ok"]:
                     bad.append((dict(base, kind="run-failed"), dict(det, expect=e)))
-                elif sorted(ob["mocked"]) != sorted(e["mocked"]):
-                    bad.append((dict(base, kind="run-mocked"), dict(det, expect=e)))
+                elif not (set(e["mocked"]) <= set(ob["mocked"]) <= set(e["mocked"]) | set(e["may"])):
+                    bad.append((dict(base, kind="run-mocked", missing=",".join(sorted(set(e["mocked"]) - set(ob["mocked"]))),
+                                     extra=",".join(sorted(set(ob["mocked"]) - set(e["mocked"]) - set(e["may"])))), dict(det, expect=e)))
     return bad
+
+
+def fn_(x):
+    return [] if x in ([], {}) else x
+
+
+def check_oracle(ctx):
+    """Which names of the scratch packages are interfaces that must / may be mocked is decided by go/types
+    (drivers/initifaces: go/packages + types.Interface.IsMethodSet), independently of mockery's discovery code;
+    the tables of spec/InitCmdMC.tla must say the same (otherwise exit 2)."""
+    drv = ctx.build_driver("initifaces")
+    w = ctx.scratch / "oracle"
+    (w / "sub").mkdir(parents=True)
+    (w / "go.mod").write_text("module example.com/w\n\ngo 1.23\n")
+    (w / "r.go").write_text(ROOT_GO)
+    (w / "sub" / "a.go").write_text(SUB_A_GO)
+    (w / "sub" / "z.go").write_text(SUB_Z_GO)
+    for pid, pat in (("root", "example.com/w"), ("sub", "example.com/w/sub")):
+        p = subprocess.run([str(drv), str(w), pat], capture_output=True, text=True, env=go_env(), timeout=300)
+        if p.returncode != 0:
+            raise MachineryError("go/types oracle failed: " + p.stderr[-500:])
+        got = json.loads(p.stdout)
+        if set(got["required"]) != GO_IFACES[pid] or set(got["optional"]) != GO_MAY[pid]:
+            raise MachineryError(f"go/types says package {pid}: required {got['required']} optional {got['optional']}; "
+                                 f"tables say {sorted(GO_IFACES[pid])} / {sorted(GO_MAY[pid])}")
+    ctx.cov["oracle"] = "go/types (drivers/initifaces) agrees with IfacesOf / MayOf"
 
 
 def check_docs(ctx, docinit, doctable):
@@ -741,12 +811,10 @@ def run(ctx):
     if not (docinit and doctable and ifaces):
         raise MachineryError("TLC did not print the constant tables")
     check_docs(ctx, docinit[0], doctable[0])
-    if {k: set(v) for k, v in ifaces[0].items()} != GO_IFACES:
-        raise MachineryError("IfacesOf in InitCmdMC.tla disagrees with the Go sources in checks/c18.py")
-    for name, src in (("root", ROOT_GO), ("sub", SUB_A_GO + SUB_Z_GO)):
-        decl = set(re.findall(r"^type (\w+)(?:\[[^\]]*\])? interface", src, re.M))
-        if decl != GO_IFACES[name]:
-            raise MachineryError(f"Go source of package {name} declares {decl}, table says {GO_IFACES[name]}")
+    may = r.prints("MAY")
+    if {k: set(v) for k, v in ifaces[0].items()} != GO_IFACES or not may or {k: set(fn_(v)) for k, v in may[0].items()} != GO_MAY:
+        raise MachineryError("IfacesOf / MayOf in InitCmdMC.tla disagree with the tables in checks/c18.py")
+    check_oracle(ctx)
     cases = r.prints("CASE")
     # seed-dependent strings: same state machine, package ids w_r<n> concretised from ctx.rng
     rnd = random_strings(ctx.rng, 120 if thorough else 16)
